@@ -74,6 +74,10 @@ def templates(rng):
     if rng.random() < .35:
         ct = SSCChart.blank(); ct["CHARTNAME"] = "from template"; ct["CREDIT"] = "t"
         if rng.random() < .3: ct["XTRA"] = "x"
+        if rng.random() < .3:
+            # a template whose (placeholder) note data sits under the legacy spelling: the result then holds NOTES2 from the
+            # template and NOTES from the source, and its notes are the source's
+            del ct["NOTES"]; ct["NOTES2"] = "0000\n0000\n0000\n0000\n"
     return st, ct
 
 
